@@ -296,7 +296,8 @@ def predicate(ops, out):
         for w in wills_here:
             if w["tag"] != will["tag"] or w["q"] != min(will["q"], 1) or w["r"] != will["r"]:
                 return f"`{op}`: will arrived as tag={w['tag']} q={w['q']} r={w['r']}, registered tag={will['tag']} q={will['q']} retain={will['r']}"
-    if state == "pending":
+    if state == "pending" and due is not None and now > due + 0.4:
+        # (only when the scenario clock really is past the deadline: a shrunk case may end earlier than the generated ones do)
         return "the will was still pending at the end of the scenario although its delay has passed"
     return None
 
